@@ -61,6 +61,15 @@ func runC15(tier string) int {
 	ms, ok2 := servermc.RunMerge(col, n, dl)
 	n.Stop()
 	fmt.Printf("[C15] live 4-partition server: commands=%d writes=%d partitions hit by the key pool=%d complete=%v %.1fs\n", ms.Commands, ms.Writes, ms.PartitionsHit, ok2, time.Since(t0).Seconds())
+	n2, err := servermc.StartWith(servermc.Opts{Port: basePort(), Parts: 3, Host: []int{0, 1}})
+	if err != nil {
+		fmt.Println("INFRA: cannot start the partially hosting server:", err)
+		return 2
+	}
+	partial := servermc.RunPartialHost(col, n2)
+	n2.Stop()
+	fmt.Printf("[C15] node hosting 2 of 3 partitions: commands=%d\n", partial)
+	col.Set("partial_host_commands", partial)
 	col.Set("evaluations", hs.Comparisons+ms.Commands)
 	col.Set("distinct_nontrivial", hs.Keys+ms.Commands)
 	col.Set("hash", map[string]interface{}{"keys": hs.Keys, "comparisons": hs.Comparisons, "max_key_len": maxLen})
